@@ -82,6 +82,7 @@ func runC06(p *core.Prog, r *core.Result) {
 		"R6.4 wait loop / wake-up discipline of module; data and err are written before loaded is published",
 		"R6.5 module code is executed only by (*module).load, which is reached only from the insert branch of the registry",
 		"R6.6 the cyclic-dependency error of wait is produced only where the chain walk met the waiter",
+		"R6.9 no slot of a bounded resource (send into a channel) is held while a module's code executes, since execution re-enters the loader for nested loads",
 		"R6.8 the loading chain is walked (by wait or a helper) only after the waiter has published its own edge: of two loaders closing a cycle concurrently, the later one sees the whole cycle",
 		"R6.7 the loader that registered a module publishes its result (done) on every exit, including failures before execution",
 	}
@@ -394,6 +395,62 @@ func runC06(p *core.Prog, r *core.Result) {
 		checkChainWalk(p, r, walkFn, walkParam)
 	} else {
 		r.Unk("R6.6", "dawn#chain-walk", "-", "no chain walk that decides the cyclic-dependency error was found")
+	}
+
+	// R6.9 nothing that can run out is held while a module's code executes: executing a module loads further
+	// modules on the same goroutine (Thread.Load -> loadModule), so a slot of a bounded resource (a send into a
+	// buffered channel used as a semaphore) taken before ExecFile is needed again, re-entrantly, by every nested load
+	nSend := 0
+	reentrant := func(c ssa.CallInstruction) bool {
+		if core.IsCallTo(c, pkgStar, "ExecFile") || core.IsCallTo(c, pkgStar, "ExecFileOptions") {
+			return true
+		}
+		cal := core.Callee(c)
+		if cal == nil || !core.InModule(cal) {
+			return false
+		}
+		if cal == loadModule || cal == load {
+			return true
+		}
+		return false
+	}
+	for f := range staticClosure(p, loadModule) {
+		if f.Pkg != loadModule.Pkg {
+			continue
+		}
+		core.Instrs(f, func(in ssa.Instruction) {
+			snd, ok := in.(*ssa.Send)
+			if !ok {
+				return
+			}
+			nSend++
+			// released before the re-entrant call on every path? (a receive from the same channel; a deferred
+			// receive only runs at return)
+			isRelease := func(x ssa.Instruction) bool {
+				u, ok := x.(*ssa.UnOp)
+				return ok && u.Op == token.ARROW && core.SameKey(u.X, snd.Chan)
+			}
+			held := false
+			var at ssa.Instruction
+			for _, c := range core.Calls(f) {
+				if _, isDefer := c.(*ssa.Defer); isDefer {
+					continue
+				}
+				ci := c.(ssa.Instruction)
+				if reentrant(c) && core.ReachesAvoiding(snd, ci, isRelease) {
+					held, at = true, ci
+				}
+			}
+			construct := fmt.Sprintf("%s#holds-slot-across-load-%d", fname(f), nSend)
+			if held {
+				r.Bad("R6.9", construct, p.InstrPos(snd), "a slot is taken from a bounded channel here and still held at %s, where the module's code runs and loads further modules that take a slot themselves: once every slot is held by a module that waits for a nested load, Load hangs on an acyclic graph", p.InstrPos(at))
+			} else {
+				r.OK("R6.9", construct, p.InstrPos(snd), "the channel operation is not held across the execution of module code")
+			}
+		})
+	}
+	if nSend == 0 {
+		r.OK("R6.9", "dawn.(*Project).loadModule#no-bounded-resource", p.Pos(loadModule.Pos()), "the module-loading path performs no channel send: nothing bounded is held while module code executes")
 	}
 
 	// R6.8 the chain walk runs after the waiter has published its own edge (the loader that closes a cycle last
